@@ -1049,6 +1049,19 @@ class SymInt:
 
     __str__ = __repr__
 
+    @property
+    def value(self):
+        """IntEnum-like view: a symbolic integer stands in for an enum member (see stubs._enum_call)"""
+        return self
+
+    @property
+    def name(self):
+        raise EngineLimit("name of a symbolic enum member")
+
+    @property
+    def real(self):
+        return self
+
     def bit_length(self):
         a = abs(self)
         if _real_isinstance(a, int):
